@@ -179,8 +179,17 @@ void EpollFdEvent::OnEventCallback(uint32_t events, EpollLoop *loop, int fd)
 
     //! 要先复制一份，因为在for中很可能会改动到d->fd_events，引起迭代器失效问题
     auto tmp = d->fd_events;
-    for (auto event : tmp)
+    for (auto event : tmp) {
+        //! 前面的回调可能已经disable或删除了该事件，甚至释放了共享数据，调用前必须重新确认
+        d = loop->findFdSharedData(fd);
+        if (d == nullptr)
+            break;
+
+        if (std::find(d->fd_events.begin(), d->fd_events.end(), event) == d->fd_events.end())
+            continue;
+
         event->onEvent(tbox_events);
+    }
 
     if (events)
         LogWarn("unhandle events:%08X, fd:%d", events, fd);
